@@ -111,6 +111,16 @@ def run(chk):
             except Exception as e:  # noqa
                 chk.violation(f'raises-{type(e).__name__}', f'{desc}: {type(e).__name__}: {e}', dict(S=S))
                 continue
+            # light-cone RSD moves all three coordinates: satellites are then identified through the same call without RSD
+            # (the selection does not depend on rsd: only the line-of-sight coordinate may move)
+            lc_rsd = bool(rsd and origin is not None)
+            out_sel = out
+            if lc_rsd:
+                try:
+                    out_sel = hc.run_hod(halos, parts, tracers, Nthread=1 + (ci + len(S)) % 4, rsd=False, origin=np.array(origin), enable_ranks=ranks)
+                except Exception as e:  # noqa
+                    chk.violation(f'raises-{type(e).__name__}', f'{desc} (rsd off): {type(e).__name__}: {e}', dict(S=S))
+                    continue
             nhosts += n + npart
             nontriv += sum(1 for al in allowed if al != {0}) + sum(1 for al in pallowed if al != {0})
             # ---------- judge selection
@@ -131,11 +141,13 @@ def run(chk):
                     chk.violation('two-galaxies-on-one-halo', f'{desc}: a halo hosts centrals of two tracers', dict(S=S))
                 sel_c[cidx] = k
                 # satellites: matched by particle position x (unique), in particle order
-                sx = np.asarray(g['x'])[nc:]
-                if rsd and origin is not None:
-                    pass
+                sx = np.asarray(out_sel[t]['x'])[out_sel[t]['Ncent']:]
+                if lc_rsd and (out_sel[t]['Ncent'] != nc or len(sx) != len(g['x']) - nc):
+                    chk.violation(f'rsd-changes-selection-{t}', f'{desc}: {t} has {nc} centrals / {len(g["x"]) - nc} satellites with RSD but {out_sel[t]["Ncent"]} / {len(sx)} without', dict(S=S))
+                    ok_struct = False
+                    continue
                 sel_rows = None
-                if not (rsd and origin is not None):
+                if True:
                     order = {float(x): j for j, x in enumerate(parts['ppos'][:, 0])}
                     try:
                         sidx = np.array([order[float(x)] for x in sx], dtype=np.int64)
@@ -160,7 +172,7 @@ def run(chk):
                                   f'(0 = none, 1 = LRG, 2 = ELG, 3 = QSO); acceptable {sorted(allowed[i])} (abstract host W={a["W"]}/16 u={a["u"]}/32, placement {var})',
                                   dict(S=S, W=a['W'], u=a['u'], var=var))
                     break
-            if not (rsd and origin is not None):
+            if True:
                 for j in range(npart):
                     if int(sel_s[j]) not in pallowed[j]:
                         a, var = pspec[j]
@@ -184,7 +196,7 @@ def run(chk):
                                   f'{desc}: {t} central {which} differs from host position / v_h + alpha_c*dev / RSD along the line of sight', dict(S=S, tracer=t))
                 if nc and not np.array_equal(np.asarray(g['mass'])[:nc], halos['hmass'][cidx]):
                     chk.violation('central-mass', f'{desc}: {t} central mass is not the host halo mass', dict(S=S, tracer=t))
-                if not (rsd and origin is not None):
+                if True:
                     sidx = np.nonzero(sel_s == k)[0]
                     ns = len(g['x']) - nc
                     if ns != len(sidx):
@@ -194,12 +206,9 @@ def run(chk):
                     got_v = np.stack([g['vx'][nc:], g['vy'][nc:], g['vz'][nc:]], axis=1)
                     if ns and not (np.allclose(got_p, epos, rtol=1e-11, atol=1e-9) and np.allclose(got_v, evel, rtol=1e-11, atol=1e-9)):
                         which = 'position' if not np.allclose(got_p, epos, rtol=1e-11, atol=1e-9) else 'velocity'
-                        chk.violation(f'satellite-fields-{which}-{"rsd" if rsd else "norsd"}', f'{desc}: {t} satellite {which} differs from particle position / v_h + alpha_s*(v_p - v_h) / RSD', dict(S=S, tracer=t))
+                        chk.violation(f'satellite-fields-{which}-{"rsd" if rsd else "norsd"}' + ('-lc' if origin is not None else ''), f'{desc}: {t} satellite {which} differs from particle position / v_h + alpha_s*(v_p - v_h) / RSD', dict(S=S, tracer=t))
                     if ns and not (np.array_equal(np.asarray(g['id'])[nc:], parts['phid'][sidx]) and np.array_equal(np.asarray(g['mass'])[nc:], parts['phmass'][sidx])):
                         chk.violation('satellite-host', f'{desc}: {t} satellites do not carry their host halo id / mass', dict(S=S, tracer=t))
-                else:
-                    # light cone: satellites identified by order only (positions all move): check count consistency and host ids are valid
-                    pass
                 if rsd and origin is None and len(g['z']):
                     z = np.asarray(g['z'])
                     if np.any(z < -hc.LBOX / 2) or np.any(z >= hc.LBOX / 2):
@@ -225,6 +234,12 @@ def run(chk):
                 chk.sample(dict(abstract=spec[7][0], placement=spec[7][1]))
     chk.part('hosts', hosts=nhosts, within_or_on_a_slice=nontriv)
     chk.add_cases(nhosts, nontrivial=nontriv, traces=nhosts)
+    # ---- extended coverage (beyond C09): satellites on an NFW profile — spec/NfwSats.tla
+    try:
+        import nfwsats
+        nfwsats.run(chk)
+    except Exception as e:  # noqa
+        chk.extended('NFW satellites: host assignment, thread blocks and placement on the profile', False, f'not evaluated: {type(e).__name__}: {str(e)[:300]}')
 
 
 def replay(chk, path):
